@@ -9,7 +9,7 @@ import copy
 import re
 import sys
 import warnings
-from functools import lru_cache
+from functools import lru_cache, wraps
 from importlib.metadata import version
 from numbers import Number as numeric_type
 
@@ -176,17 +176,38 @@ def _iterable(obj):
     return True
 
 
-@lru_cache(maxsize=128, typed=False)
+def _unit_rule_cache(func):
+    """lru_cache for the unit rules below that also keys on the *identity* of
+    the first operand's registry. Unit hashing and equality only see registry
+    contents, so two registries that have (or once had) the same contents would
+    otherwise be handed each other's cached units, which keep following the
+    registry they were created for.
+    """
+
+    @lru_cache(maxsize=128, typed=False)
+    def cached(registry_id, *args):
+        return func(*args)
+
+    @wraps(func)
+    def wrapper(*args):
+        return cached(id(getattr(args[0], "registry", None)), *args)
+
+    wrapper.cache_clear = cached.cache_clear
+    wrapper.cache_info = cached.cache_info
+    return wrapper
+
+
+@_unit_rule_cache
 def _sqrt_unit(unit):
     return 1, unit**0.5
 
 
-@lru_cache(maxsize=128, typed=False)
+@_unit_rule_cache
 def _cbrt_unit(unit):
     return 1, unit ** (1.0 / 3.0)
 
 
-@lru_cache(maxsize=128, typed=False)
+@_unit_rule_cache
 def _multiply_units(unit1, unit2):
     try:
         ret = (unit1 * unit2).simplify()
@@ -198,7 +219,7 @@ def _multiply_units(unit1, unit2):
     return ret.as_coeff_unit()
 
 
-@lru_cache(maxsize=128, typed=False)
+@_unit_rule_cache
 def _preserve_units(unit1, unit2=None):
     if unit2 is None or unit1.dimensions is not temperature:
         return 1, unit1
@@ -207,7 +228,7 @@ def _preserve_units(unit1, unit2=None):
     return 1, unit1
 
 
-@lru_cache(maxsize=128, typed=False)
+@_unit_rule_cache
 def _difference_units(unit1, unit2=None):
     if unit1.dimensions is not temperature:
         return _preserve_units(unit1, unit2)
@@ -243,17 +264,17 @@ def _difference_units(unit1, unit2=None):
         )
 
 
-@lru_cache(maxsize=128, typed=False)
+@_unit_rule_cache
 def _power_unit(unit, power):
     return 1, unit**power
 
 
-@lru_cache(maxsize=128, typed=False)
+@_unit_rule_cache
 def _square_unit(unit):
     return 1, unit * unit
 
 
-@lru_cache(maxsize=128, typed=False)
+@_unit_rule_cache
 def _divide_units(unit1, unit2):
     try:
         ret = (unit1 / unit2).simplify()
@@ -262,7 +283,7 @@ def _divide_units(unit1, unit2):
     return ret.as_coeff_unit()
 
 
-@lru_cache(maxsize=128, typed=False)
+@_unit_rule_cache
 def _reciprocal_unit(unit):
     return 1, unit**-1
 
